@@ -928,3 +928,56 @@ func TestGowpReplay(t *testing.T) {
 }
 `, true
 }
+
+// --- pop mode under a render delay (C18) ----------------------------------------------------
+
+func init() {
+	replayHarnesses = append(replayHarnesses,
+		replayHarness{match: prefixMatch("(*pState).flush/iter#1:visible"), pkgDir: ".", render: renderDelayedPop,
+			class: func(P *Program, ob *Obligation) string { return "popped-while-delayed" }})
+}
+
+// pop mode, WithRenderDelay: one bar finishes while the delay is pending, the delay ends, the
+// other bar finishes. Oracle: the first bar appears in the output at all.
+func renderDelayedPop(P *Program, ob *Obligation) (string, bool) {
+	return `package mpb
+
+import (
+	"bytes"
+	"strings"
+	"sync"
+	"testing"
+	"time"
+
+	"github.com/vbauerster/mpb/v8/decor"
+)
+
+type lb4 struct {
+	mu sync.Mutex
+	b  bytes.Buffer
+}
+
+func (l *lb4) Write(p []byte) (int, error) { l.mu.Lock(); defer l.mu.Unlock(); return l.b.Write(p) }
+func (l *lb4) String() string               { l.mu.Lock(); defer l.mu.Unlock(); return l.b.String() }
+
+// pop mode with a render delay: a bar that finishes while the delay is pending must still be
+// left on screen once, in its finished state, when rendering starts.
+func TestGowpReplay(t *testing.T) {
+	out := &lb4{}
+	delay := make(chan struct{})
+	p := New(WithOutput(out), WithAutoRefresh(), WithRefreshRate(10*time.Millisecond), WithWidth(40), PopCompletedMode(), WithRenderDelay(delay))
+	early := p.AddBar(1, PrependDecorators(decor.Name("early")))
+	late := p.AddBar(2, PrependDecorators(decor.Name("late")))
+	early.Increment()
+	time.Sleep(100 * time.Millisecond) // several (discarded) render cycles
+	close(delay)
+	time.Sleep(50 * time.Millisecond)
+	late.IncrBy(2)
+	p.Wait()
+	s := out.String()
+	if !strings.Contains(s, "early") {
+		t.Errorf("render delay: REPRODUCED: the bar that finished while the render delay was pending never appears in the output (it was popped into the discarded frames); output=%q", s)
+	}
+}
+`, true
+}
